@@ -6,6 +6,7 @@ import (
 	"io"
 
 	"github.com/libsv/go-bt/v2"
+	"github.com/libsv/go-bt/v2/bscript"
 
 	"verif/sim/kernel"
 	"verif/sim/models"
@@ -15,6 +16,16 @@ import (
 // delivery schedule -> receiver (real decoders/encoders).
 
 type c01World struct{}
+
+// c01Recv holds receivers that are deliberately re-used across decodes of one run
+// ("the second use of an object"), so state left behind by an earlier decode shows.
+type c01Recv struct {
+	tx   *bt.Tx
+	list bt.Txs
+	used int
+}
+
+var c01recv *c01Recv
 
 func init() { kernel.Register(&c01World{}) }
 
@@ -317,6 +328,15 @@ func reserialiseCheck(c *kernel.RunCtx, tx *bt.Tx, m *models.RTx, extended bool,
 }
 
 func (w *c01World) Run(c *kernel.RunCtx) {
+	c01recv = &c01Recv{tx: &bt.Tx{}}
+	{
+		// the re-used receivers start out holding an unrelated earlier decode
+		seedTx := &models.RTx{Version: 7, Ins: []models.RIn{{Vout: 1, Script: []byte{0x51}, Seq: 9}}, Outs: []models.ROut{{Sats: 5, Script: []byte{0x52}}}, Lock: 3}
+		lb, _, _ := models.EncodeList([]*models.RTx{seedTx, seedTx}, false, true, nil)
+		_, _ = c01recv.list.ReadFrom(kernel.NewStream(lb, kernel.Plan{}))
+		tb, _ := seedTx.Encode(true, nil)
+		_, _ = c01recv.tx.ReadFrom(kernel.NewStream(tb, kernel.Plan{}))
+	}
 	heavy := 0
 	if c.RunIdx%97 == 5 {
 		heavy = 1 // a quota of runs that force the 65535/65536 classes
@@ -580,7 +600,13 @@ func (w *c01World) decodeStream(c *kernel.RunCtx, data []byte, txs []*models.RTx
 	c.Logf("decode container=%d extended=%v ntx=%d bytes=%d plan=%s", container, extended, len(txs), len(data), plan)
 	c.Exec()
 	if container == 2 {
-		var list bt.Txs
+		var fresh bt.Txs
+		list := &fresh
+		if c01recv.used%2 == 1 {
+			list = &c01recv.list // re-used receiver: still holds the previous decode's result
+			c.Count("probe.receiver_reused", 1)
+		}
+		c01recv.used++
 		var n int64
 		var err error
 		if p := catch(func() { n, err = list.ReadFrom(st) }); p != "" {
@@ -601,11 +627,11 @@ func (w *c01World) decodeStream(c *kernel.RunCtx, data []byte, txs []*models.RTx
 			c.Fail("consumed", "Txs.ReadFrom", "Txs.ReadFrom reported %d bytes, stream handed out %d, list ends at %d (plan %s)", n, st.Supplied, want, plan)
 			return
 		}
-		if len(list) != len(txs) {
-			c.Fail("decode", "Txs.ReadFrom", "list has %d transactions want %d", len(list), len(txs))
+		if len(*list) != len(txs) {
+			c.Fail("decode", "Txs.ReadFrom", "list has %d transactions want %d (receiver re-used: %v)", len(*list), len(txs), list == &c01recv.list)
 			return
 		}
-		for i, tx := range list {
+		for i, tx := range *list {
 			if d := cmpTx(tx, txs[i], extendedOf(data, ends, i, container, extended)); d != "" {
 				c.Fail("fields", "Txs.ReadFrom", "transaction %d of list (plan %s): %s", i, plan, d)
 				return
@@ -614,11 +640,19 @@ func (w *c01World) decodeStream(c *kernel.RunCtx, data []byte, txs []*models.RTx
 				return
 			}
 		}
+		w.siblingIsolation(c, *list, txs, data, ends, container, extended, "Txs.ReadFrom")
 		return
 	}
+	var decoded []*bt.Tx
 	prev := 0
 	for i, m := range txs {
 		tx := &bt.Tx{}
+		if i == len(txs)-1 && c01recv.used%2 == 1 {
+			tx = c01recv.tx // re-used receiver
+			c.Count("probe.receiver_reused", 1)
+		}
+		c01recv.used++
+		decoded = append(decoded, tx)
 		var n int64
 		var err error
 		if p := catch(func() { n, err = tx.ReadFrom(st) }); p != "" {
@@ -660,6 +694,18 @@ func (w *c01World) decodeStream(c *kernel.RunCtx, data []byte, txs []*models.RTx
 		}
 		prev = ends[i]
 	}
+	if len(decoded) == 1 {
+		// a second, independent decode of the same bytes is the sibling
+		if tx2, _, err := bt.NewTxFromStream(data); err == nil {
+			decoded = append(decoded, tx2)
+			w.siblingIsolation(c, decoded, []*models.RTx{txs[0], txs[0]}, data, []int{ends[0], ends[0]}, 0, extended, "Tx.ReadFrom")
+		}
+	} else {
+		w.siblingIsolation(c, decoded, txs, data, ends, container, extended, "Tx.ReadFrom")
+	}
+	if c.Failed() {
+		return
+	}
 	if !hasTail {
 		// at the end of the stream the next ReadFrom must consume nothing and fail
 		tx := &bt.Tx{}
@@ -674,6 +720,47 @@ func (w *c01World) decodeStream(c *kernel.RunCtx, data []byte, txs []*models.RTx
 			return
 		}
 		if err != io.EOF && err.Error() == "" {
+			return
+		}
+	}
+}
+
+// siblingIsolation: decoded transactions must not share mutable state. The first decoded object is
+// modified in place through its script pointers; every other object decoded from the stream must
+// still equal the model.
+func (w *c01World) siblingIsolation(c *kernel.RunCtx, decoded []*bt.Tx, txs []*models.RTx, data []byte, ends []int, container int, extended bool, site string) {
+	if len(decoded) < 2 || c.Failed() {
+		return
+	}
+	first := decoded[0]
+	grow := func(sp *bscript.Script) {
+		if sp == nil {
+			return
+		}
+		for i := range *sp {
+			(*sp)[i] ^= 0xa5
+		}
+		*sp = append(*sp, 0x51, 0x52)
+	}
+	for _, in := range first.Inputs {
+		grow(in.UnlockingScript)
+		grow(in.PreviousTxScript)
+		id := in.PreviousTxID()
+		for i := range id {
+			id[i] ^= 0xff
+		}
+	}
+	for _, o := range first.Outputs {
+		grow(o.LockingScript)
+	}
+	c.Count("probe.sibling_isolation_checked", 1)
+	for i := 1; i < len(decoded); i++ {
+		ext := extended
+		if len(ends) == len(decoded) && !(ends[0] == ends[len(ends)-1]) {
+			ext = extendedOf(data, ends, i, container, extended)
+		}
+		if d := cmpTx(decoded[i], txs[i], ext); d != "" {
+			c.Fail("aliasing", site, "modifying one decoded transaction in place changed another one decoded from the same stream (transaction %d): %s", i, d)
 			return
 		}
 	}
@@ -734,9 +821,20 @@ func (w *c01World) sliceAPIs(c *kernel.RunCtx, data []byte, txs []*models.RTx, e
 	}
 	if exact {
 		var tx3 *bt.Tx
-		if p := catch(func() { tx3, err = bt.NewTxFromString(hex.EncodeToString(data)) }); p != "" || err != nil || cmpTx(tx3, txs[0], extendedOf(data, ends, 0, container, extended)) != "" {
+		hs := hex.EncodeToString(data)
+		if p := catch(func() { tx3, err = bt.NewTxFromString(hs) }); p != "" || err != nil || cmpTx(tx3, txs[0], extendedOf(data, ends, 0, container, extended)) != "" {
 			c.Fail("decode", "NewTxFromString", "NewTxFromString failed on the hex of one transaction: panic=%q err=%v", p, err)
+			return
 		}
+		// the string route must consume the whole string too: anything after the transaction is an error
+		for _, tail := range []string{"0", "a", "00", "z", "0z", " ", "\n"} {
+			var tx4 *bt.Tx
+			if p := catch(func() { tx4, err = bt.NewTxFromString(hs + tail) }); p != "" || err == nil {
+				c.Fail("consumed", "NewTxFromString", "NewTxFromString accepted the hex of one transaction followed by %q (panic=%q, tx=%v)", tail, p, tx4 != nil)
+				return
+			}
+		}
+		c.Count("probe.string_route_tails", 1)
 	}
 }
 
